@@ -510,6 +510,11 @@ fn same_response(b: &ResponseBody, m: &RefMessage) -> bool {
 pub fn run(p: &Params) -> Report {
     let mut rep = Report::new("C02");
     if let Some(r) = &p.replay {
+        if super::sys::replay(r, &mut rep) {
+            return rep;
+        }
+    }
+    if let Some(r) = &p.replay {
         let seed: u64 = r["replay"]["scenario_seed"].as_str().unwrap().parse().unwrap();
         if r["replay"]["kind"] == "forged" {
             scenario_forged(seed, &mut rep);
@@ -535,6 +540,8 @@ pub fn run(p: &Params) -> Report {
         let seed = p.shard_seed(0xB1_0000 + i);
         crate::util::guarded(&mut rep, seed, |rep| scenario(seed, true, 4000, rep));
     }
+    // full stack: a network that tampers with and replays datagrams around an unmodified Discv5
+    super::sys::run_mixed(p, super::sys::Focus::C02, 0x5C02_0000, 1600, 100_000, &mut rep);
     rep.extra.insert("exhaustive_subspaces".into(), json!(["every single-bit flip of the datagrams selected for the exhaustive pass (one datagram kind and session state per scenario)"]));
     rep
 }
